@@ -151,6 +151,8 @@ class LibMixin:
                 st.heap["#THREADS"] = z3.Concat(self.harr(st, "#THREADS"), z3.Unit(Ev.mkEv(z3.StringVal("thread.new"), Val.RefV(r),
                                                 box(self.heapify(st, tgt)), NoneV, NoneV, NoneV, NoneV, NoneV)))
             return [Res(st, SV("obj", r, h="Thread"))]
+        if name == "collections.OrderedDict" and not a and not kw:
+            return [Res(st, self.new_dict(st))]
         if name == "inspect.getcallargs":
             self.assumptions.add("inspect.getcallargs(f, *a, **kw): Python's own binding of the call -- a fresh dict of parameter name -> bound value, "
                                  "or TypeError exactly when the call f(*a, **kw) would fail to bind")
@@ -256,6 +258,53 @@ class LibMixin:
                     out.append(r)
                 else:
                     out.append(Res(r.st, self.new_list(r.st, self.mkseq([box(self.heapify(r.st, v)) for v in r.val]))))
+            return out
+        if it.k == "dictview" and not g.ifs:
+            d, mode = it.t
+            keys = self.dict_keys_seq(st, d)
+            out = []
+            s_el = st.copy()
+            i = self.fresh("lci", I)
+            s_el.assume(i >= 0)
+            s_el.assume(i < z3.Length(keys))
+            saved = s_el.fid
+            fid = s_el.new_frame(saved, None)
+            s_el.fid = fid
+            el = self.elem_value(s_el, keys, None, (mode, d), i)
+            s_el.assume(z3.Select(self.dom_of(s_el, d), keys[i]))       # ground instance of the enumeration axiom
+            for ao in self.assign(s_el, g.target, el):
+                for er in self.ev(e.elt, ao.st):
+                    er.st.fid = saved
+                    if er.exc is not None:
+                        out.append(er)
+            res = self.fresh("lcres", SeqV)
+            st.assume(z3.Length(res) == z3.Length(keys))
+            out.append(Res(st, self.new_list(st, res)))
+            return out
+        if it.k in ("list", "seq") and not g.ifs:
+            # [f(x) for x in xs]: evaluated once on an arbitrary element (so whatever f can raise is seen); the result is a fresh
+            # sequence of the same length whose elements are not interpreted (sound for the pure element expressions it is used for)
+            sq = it.t if it.k == "seq" else self.seq_of(st, it)
+            out = []
+            s_el = st.copy()
+            i = self.fresh("lci", I)
+            s_el.assume(i >= 0)
+            s_el.assume(i < z3.Length(sq))
+            saved = s_el.fid
+            fid = s_el.new_frame(saved, None)
+            s_el.fid = fid
+            el = self.from_val(s_el, sq[i], it.h) if it.h else SV("val", sq[i])
+            ek = None
+            for ao in self.assign(s_el, g.target, el):
+                for er in self.ev(e.elt, ao.st):
+                    er.st.fid = saved
+                    if er.exc is not None:
+                        out.append(er)
+                    else:
+                        ek = er.val.k
+            res = self.fresh("lcres", SeqV)
+            st.assume(z3.Length(res) == z3.Length(sq))
+            out.append(Res(st, self.new_list(st, res, ek if ek in ("str", "int") else None)))
             return out
         raise Unsupported("list comprehension over " + it.k)
 
